@@ -96,6 +96,9 @@ class WireNcp(simncp.SimNcp):
     def cmd_networkState(self):
         return {"status": 0}
 
+    def cmd_readCounters(self):
+        return {"values": [7, 0, 3]}
+
 
 class Stack:
     """Owns the line, the NCP and the patched serial factory for one scenario."""
